@@ -627,6 +627,64 @@ def check_rejections(ctx):
                               {"call_index": BAD_CALLS.index((name, call))})
 
 
+# ------------------------------------------------------------------ empty inputs (paths of length 0)
+def _empty_rot():
+    return R.from_quat(np.zeros((0, 4)))
+
+
+EMPTY_CALLS = [
+    ("orientation=:empty-rotation", lambda o: setattr(o, "orientation", _empty_rot())),
+    ("position=:empty-array", lambda o: setattr(o, "position", np.zeros((0, 3)))),
+    ("rotate:empty-rotation", lambda o: o.rotate(_empty_rot())),
+    ("rotate:empty-rotation:anchor", lambda o: o.rotate(_empty_rot(), anchor=(1, 2, 3), start=1)),
+    ("rotate:empty-anchor", lambda o: o.rotate(R.from_rotvec((0.1, 0.2, 0.3)), anchor=np.zeros((0, 3)))),
+    ("move:empty-array", lambda o: o.move(np.zeros((0, 3)))),
+    ("rotate_from_quat:empty", lambda o: o.rotate_from_quat(np.zeros((0, 4)))),
+    ("rotate_from_rotvec:empty", lambda o: o.rotate_from_rotvec(np.zeros((0, 3)))),
+]
+
+EMPTY_TARGETS = [
+    ("object", lambda: magpy.Sensor(position=[(1, 2, 3), (4, 5, 6)])),
+    ("collection", lambda: magpy.Collection(magpy.Sensor(position=(1, 1, 1)), position=[(1, 2, 3), (4, 5, 6)])),
+]
+
+
+def empty_input_case(ti, ci):
+    """an input of length 0, accepted or rejected: paths keep equal length >= 1 and a rejected call changes
+    nothing.  returns None or (clause, what)"""
+    tname, mk = EMPTY_TARGETS[ti]
+    name, call = EMPTY_CALLS[ci]
+    o = mk()
+    objs = [o] + list(getattr(o, "children", []))
+    before = [(x._position.copy(), x._orientation.as_quat().copy()) for x in objs]
+    try:
+        call(o)
+        raised = None
+    except Exception as e:   # pylint: disable=broad-except
+        raised = e
+    for x in objs:
+        if len(x._position) < 1 or len(x._position) != len(x._orientation):
+            how = "accepted" if raised is None else f"rejected with {type(raised).__name__} half-way"
+            return "lengths", (f"{name} on a {tname} ({how}): position/orientation path lengths "
+                               f"{len(x._position)}/{len(x._orientation)}")
+    if raised is not None:
+        for x, (p0, q0) in zip(objs, before):
+            if x._position.shape != p0.shape or not np.array_equal(x._position, p0) \
+                    or not np.array_equal(x._orientation.as_quat(), q0):
+                return "rejected-unchanged", f"{name} on a {tname}: rejected ({type(raised).__name__}) but a path changed"
+    return None
+
+
+def check_empty_inputs(ctx):
+    for ti, (tname, _) in enumerate(EMPTY_TARGETS):
+        for ci, (name, _) in enumerate(EMPTY_CALLS):
+            ctx.case(("empty-input", tname, name), True)
+            ctx.bump("empty-input:" + name.split(":")[0])
+            res = empty_input_case(ti, ci)
+            if res is not None:
+                ctx.impl_fail(f"{res[0]}/{name}", res[1], {"kind": "empty-input", "target": ti, "call": ci})
+
+
 # ------------------------------------------------------------------ main
 def oracle_sweep(ctx, n_hist, nops):
     fixed = battery_cases()
@@ -741,10 +799,18 @@ def run(ctx):
     run_guarded(ctx, lambda: check_rotate_from(ctx, ctx.n(120, 2400)), "C09 rotate_from")
     run_guarded(ctx, lambda: check_rejections(ctx), "C09 rejections")
     run_guarded(ctx, lambda: class_battery(ctx), "C09 class battery")
+    run_guarded(ctx, lambda: check_empty_inputs(ctx), "C09 empty inputs")
+    ctx.refuted += [t for t in ctx.theorems if t.endswith("_refuted")]
 
 
 def replay(ctx, obj):
     rp = obj.get("replay", obj)
+    if rp.get("kind") == "empty-input":
+        res = empty_input_case(rp["target"], rp["call"])
+        print("replay:", "property holds for this call" if res is None else f"FAILS ({res[0]}): {res[1]}")
+        if res is not None:
+            print(f"VIOLATION property=C09 replay={obj.get('how_to_rerun', '').split()[-1] or 'given'}")
+        return 0 if res is None else 1
     if rp.get("kind") in ("float-history", "exact-history", "class-history"):
         rots = octa.rot if rp["kind"] == "exact-history" else rotvec_rot
         cls = public_classes()[rp["class"]] if rp["kind"] == "class-history" else None
